@@ -246,6 +246,7 @@ func TestC09(t *testing.T) {
 		for _, api := range []string{"streamwriter", "framewriter", "readwriter", "newwriter", "newreadwriter"} {
 			rw := &recWriter{}
 			var write func(m message.Message) error
+			var forward func(fr frame.Frame) error
 			if api == "streamwriter" {
 				fw := &frame.Writer{ByteWriter: rw, DialectRW: genv.drw}
 				_ = fw.Initialize()
@@ -255,6 +256,7 @@ func TestC09(t *testing.T) {
 					continue
 				}
 				write = sw.Write
+				forward = fw.Write
 			} else if api == "framewriter" {
 				fw := &frame.Writer{ByteWriter: rw, DialectRW: genv.drw, OutVersion: frame.WriterOutVersion(conf.version), OutSystemID: conf.sys,
 					OutComponentID: conf.comp, OutKey: key, OutSignatureLinkID: conf.link}
@@ -263,6 +265,7 @@ func TestC09(t *testing.T) {
 					continue
 				}
 				write = fw.WriteMessage
+				forward = fw.Write
 			} else if api == "newwriter" {
 				// the deprecated constructor
 				fw, err := frame.NewWriter(frame.WriterConf{Writer: rw, DialectRW: genv.drw, OutVersion: frame.WriterOutVersion(conf.version), OutSystemID: conf.sys,
@@ -272,6 +275,7 @@ func TestC09(t *testing.T) {
 					continue
 				}
 				write = fw.WriteMessage
+				forward = fw.Write
 			} else if api == "newreadwriter" {
 				frw, err := frame.NewReadWriter(frame.ReadWriterConf{ReadWriter: struct {
 					io.Reader
@@ -283,6 +287,7 @@ func TestC09(t *testing.T) {
 					continue
 				}
 				write = frw.WriteMessage
+				forward = frw.Write
 			} else {
 				// the deprecated message writer of frame.ReadWriter
 				frw := &frame.ReadWriter{ByteReadWriter: struct {
@@ -295,12 +300,23 @@ func TestC09(t *testing.T) {
 					continue
 				}
 				write = frw.WriteMessage
+				forward = frw.Write
 			}
 			var emitted []c09emitted
 			refused := 0
 			guard(rep, "api="+api+" what=panic", func() interface{} { return conf.String() }, func() {
 				for i := 0; i < nItems; i++ {
 					rw.reset()
+					if forward != nil && i%7 == 3 {
+						// a pre-existing frame forwarded through the same writer between the originated ones: no part in their numbering
+						fs := &ref.FrameSpec{Version: 2, Seq: r.Byte(), Sys: r.Byte(), Comp: r.Byte(), MsgID: c09forwardID, Payload: r.Bytes(1 + r.Intn(20)), Checksum: uint16(r.U64())}
+						if i%21 == 3 {
+							fs.Sys, fs.Comp = conf.sys, conf.comp
+						}
+						_ = forward(toFrame(fs))
+						rep.Count("frames_forwarded_through_originating_writers", 1)
+						rw.reset()
+					}
 					if r.Chance(1, 25) {
 						err := write(refusedMsg(v2))
 						if err == nil {
@@ -507,6 +523,31 @@ func TestC09(t *testing.T) {
 		sw := &streamwriter.Writer{FrameWriter: fw, Version: streamwriter.Version(ic.version), SystemID: ic.sys, Key: key}
 		if err := sw.Initialize(); (err != nil) != ic.wantErr {
 			rep.Violation("api=streamwriter what=init:"+ic.name, fmt.Sprintf("streamwriter.Writer.Initialize returned %v", err), ic.name)
+		}
+		// the same stream writer on a frame writer that was built with the deprecated options set (to OTHER values): they
+		// belong to the frame writer's own deprecated WriteMessage; the stream writer's configuration is its own fields
+		rwD := &recWriter{}
+		if fwD, err := frame.NewWriter(frame.WriterConf{Writer: rwD, DialectRW: genv.drw, OutVersion: frame.V1, OutSystemID: 7, OutComponentID: 9}); err == nil {
+			swD := &streamwriter.Writer{FrameWriter: fwD, Version: streamwriter.Version(ic.version), SystemID: ic.sys, Key: key}
+			err := swD.Initialize()
+			if (err != nil) != ic.wantErr {
+				rep.Violation("api=streamwriter what=init:"+ic.name, fmt.Sprintf("on a frame writer carrying deprecated options of its own, streamwriter.Writer.Initialize returned %v", err), ic.name)
+			} else if err == nil && !ic.key {
+				if mi := genv.layouts[0]; mi != nil || true {
+					for _, cand := range genv.sorted() {
+						if ic.version == 1 && cand.Msg.GetID() > 255 {
+							continue
+						}
+						val := reflect.New(cand.Type)
+						vh.FillMessage(r, cand.Layout, val, vh.ModeMixed)
+						rwD.reset()
+						if swD.Write(val.Interface().(message.Message)) == nil && len(rwD.calls) == 1 {
+							c09checkLink(rep, "streamwriter", c09conf{version: ic.version, sys: ic.sys, comp: 0, keyRaw: nil, link: 0}, genv, []c09emitted{{wire: rwD.calls[0]}}, -1)
+						}
+						break
+					}
+				}
+			}
 		}
 		tr := fake.NewTransport("init")
 		node := &gomavlib.Node{
